@@ -51,13 +51,17 @@ def run(tier, seed, t0):
     R.run_inv(Inv("params", CATALOGUE, "asan", args=["--part=neg"], timeout=to, tag="params/neg/asan", first=n_neg), seed, wd, m)
     per_tag = T(tier, 20, 200)
     R.run_inv(Inv("params", len(MEANING) * per_tag, "plain", args=["--part=meaning"], timeout=to, tag="params/meaning/plain"), seed, wd, m)
+    # the file through the constructor main() uses (simulation_initializer(parameter file)): reported parameters, and whether the input geometry is triangulated anew
+    n_start = T(tier, 240, 20000)
+    R.run_inv(Inv("params", n_start, "plain", args=["--part=startup"], timeout=to, first=3000000, tag="params/startup/plain"), seed, wd, m)
 
     b = m.bins
     if b.get("oracle_self_disagreement", 0):
         m.harness_failures.append("own number parser (from_chars) and strtod disagree on %d generated values" % b["oracle_self_disagreement"])
     if m.maxima.get("catalogue_size") not in (None, CATALOGUE):
         m.harness_failures.append("catalogue size in the harness (%s) differs from checks/C18.py (%d)" % (m.maxima.get("catalogue_size"), CATALOGUE))
-    floors = {"sampling_period_not_a_multiple_of_time_step": (b.get("sampling_period_not_a_multiple_of_time_step", 0), 3),
+    floors = {"startup:input_cells_kept_as_they_are": (b.get("startup:input_cells_kept_as_they_are", 0), 0.5 * n_start), "startup:cells_triangulated_anew": (b.get("startup:cells_triangulated_anew", 0), 0.4 * n_start),
+              "sampling_period_not_a_multiple_of_time_step": (b.get("sampling_period_not_a_multiple_of_time_step", 0), 3),
               "contact_probes_between_adhesion_and_repulsion_cutoff": (b.get("contact_cutoff_probes_between_the_two_cutoffs", 0), 5)}
     for t in NUM + CELL + FACE:
         floors["read:" + t] = (b.get("read:" + t, 0), n_read)
